@@ -12,6 +12,17 @@ kind "api" : a model is built through the public API from a small history (ids w
 kind "hand": a file is written by the harness (json / yaml modules) from a description: assets listed in any order,
              id 0, type-only shorthand; the loaded model must be the model the description denotes (computed here from
              the description and the language specification, not from the code under test).
+             Defense entries of the file: every defense the type defines or inherits (Disabled and Enabled by default)
+             x the values 0 / 0.0 / 1 / 1.0 / fractions, written as int or float.
+             With "then": the file is rewritten (by the harness) at the same path with a second description and loaded
+             again in the same process: the second load must give the second description.
+kind "seq" : ONE process, ONE file, several saves and loads: the model is built, saved, loaded, CHANGED (assets added /
+             removed, defense values, extras, associations, attackers), saved to the same file and loaded again, ...; each
+             load must give the content the model had at the save just before it (not the content of an earlier save).
+             The file is named by the caller in any of the spellings of PATH_FORMS (absolute canonical, bare name,
+             './name', relative with a directory, with '..', with '/./', with '//', through a symlinked directory,
+             relative to a different working directory); the spelling used for saving and the one used for loading are
+             chosen independently.
 """
 from __future__ import annotations
 import itertools, json, os, random, shutil, sys, tempfile
@@ -27,20 +38,43 @@ SCOPE = {
              "attacker ids) x 9 name sets (plain, duplicates, 'yes' '1' 'a: b', 'null' '~', unicode, quotes, newline, empty) x "
              "4 defense settings x 3 extras settings x {json, yml, yaml}, a seeded half of that product + 600 random "
              "histories; hand: 3 id sets x 6 orders of the asset entries x 4 spellings (full / shorthand / defenses+extras) "
-             "x 3 formats",
-    "thorough": "the full product, 6000 random histories, hand-written files with 4 id sets",
+             "x 3 formats; "
+             "named defenses (api): per asset every assignment of {unset, 0.0, 0, 1.0, 0.5} to EVERY defense its type "
+             "defines or inherits (Disabled-by-default d / e, Enabled-by-default dE / dc) + every defense of every asset "
+             "set to one value, x 2 histories x 3 formats, + 300 random histories with random named defenses; "
+             "hand: each defense of each type (and all at once) x values {0, 0.0, 1, 1.0, 0.75, 1e-07} (int and float "
+             "spellings) x 2 orders x 3 formats; hand, rewritten file: 8 pairs of descriptions written one after the "
+             "other to the same path x 2 languages x 3 formats; "
+             "seq (save -> load -> change -> save -> load ... on one file in one process): 7 change scenarios of 3-4 "
+             "stages (grow / shrink, defenses only incl. 0.0 on Enabled-by-default, extras only, associations and "
+             "attackers only, same ids with other assets, unchanged re-save) x 10 spellings of the path for saving x 10 "
+             "for loading (absolute canonical, bare name, './', relative with directory, '..' relative and absolute, "
+             "'/./', '//', via symlinked directory, relative to the parent) x {json, yml, yaml}, a seeded half of the "
+             "mixed-spelling pairs, + 300 random sequences",
+    "thorough": "the full product, 6000 random histories, hand-written files with 4 id sets; named defenses with 3000 random "
+                "histories and every order of the hand-written entries; every save/load spelling pair, 3000 random sequences",
 }
 EXHAUSTIVE = {"quick": False, "thorough": False}
 RULE = ("api case = (language, history, names, defenses, extras, format); the history is run leaving out calls the "
         "properties do not fix (asset not in the model, object already in the model) and ignoring calls that raise; "
         "non-trivial = the model has at least one asset; distinct = distinct content of the built model x format. "
-        "hand case = (description, order of the asset entries, format); distinct = distinct file content")
+        "hand case = (description, order of the asset entries, format); distinct = distinct file content; a defense "
+        "entry of a description is (defense the type has, value in {0, 0.0, 1, 1.0, fraction}); a rewritten-file case = "
+        "(description 1, description 2) at one path, both loaded in one process. "
+        "seq case = (language, names, format, spelling of the path for save, spelling for load, stages); a stage = "
+        "(history operations, named defense values, extras) applied to the live model, followed by save + load of the "
+        "same file; every load is compared with the content of the live model at the preceding save; non-trivial = some "
+        "stage changes the content; distinct = distinct sequence of contents x format x spellings")
 ASSUMPTIONS = [
     "contents are read from live objects by lib_model.full_view: int(id), str(name), str(type), float(defense) for the "
     "defenses the language specification gives the type, the plain value of extras",
     "hand-written files are produced with json.dump / yaml.safe_dump(sort_keys=False) and re-save comparison parses files "
     "with json.load / yaml.safe_load (JSON/YAML libraries trusted)",
     "asset names chosen for type-only shorthand entries are not fixed by the statement: only checked to be non-empty and unique",
+    "seq cases: every case works in its own fresh directory (os.path.realpath of a mkdtemp), changes the working directory "
+    "of the worker process to it (or its sub-directory) for the duration of the call and restores it; all spellings of "
+    "PATH_FORMS denote the same file <dir>/sub/m.<fmt> (os / filesystem trusted); worker processes run many cases one "
+    "after the other, so process-wide state kept by the library is exercised across cases too (paths never repeat)",
 ]
 BUDGET_S = {"quick": 100, "thorough": 1500}
 CHUNK = 100
@@ -84,6 +118,75 @@ EXTRAS = [({}, {}), ({0: {"k": "v", "n": 1, "nested": {"x": [1, 2]}}, 2: {"pos":
 FMTS = ("json", "yml", "yaml")
 
 
+# values a defense is given by name: 0.0 / 0 are the ones that differ from the default of an Enabled defense only
+DEF_VALUES = [0.0, 0, 1.0, 0.5]
+HAND_DEF_VALUES = [0, 0.0, 1, 1.0, 0.75, 1e-07]
+# spellings of ONE file, <T>/sub/m.<fmt>: name -> (working directory relative to T, path; {T} = the absolute directory)
+PATH_FORMS = {
+    "abs": (".", "{T}/sub/m"), "bare": ("sub", "m"), "dot-bare": ("sub", "./m"), "rel": (".", "sub/m"),
+    "rel-dotdot": (".", "sub/../sub/m"), "abs-dotdot": (".", "{T}/sub/../sub/m"), "abs-dot": (".", "{T}/./sub/m"),
+    "abs-dslash": (".", "{T}/sub//m"), "via-symlink": (".", "link/m"), "rel-parent": ("sub", "../sub/m"),
+}
+# change scenarios: each stage = {"ops": history operations, "defs_named": {cand: {defense|"*": value}}, "aextras": {cand: extras}}
+# ("*" = every defense the type of the candidate has)
+SEQ_SCENARIOS = [
+    # grows, then shrinks
+    [{"ops": [["add_asset", 0, None, True], ["add_asset", 1, None, True]]},
+     {"ops": [["add_asset", 2, None, True], ["add_assoc", 0], ["add_assoc", 2]] + ATT, "defs_named": {"1": {"*": 1.0}}},
+     {"ops": [["remove_asset", 0]]}],
+    # only defense values change (0.0 / 0 on every defense, Enabled-by-default ones included; back to 1.0)
+    [{"ops": A3 + [["add_assoc", 0]]},
+     {"defs_named": {"0": {"*": 0.0}, "1": {"*": 0}, "2": {"*": 0.0}}},
+     {"defs_named": {"0": {"*": 1.0}, "1": {"*": 0.5}, "2": {"*": 1}}},
+     {"defs_named": {"0": {"*": 0.0}}}],
+    # only extras change
+    [{"ops": A3, "aextras": {"0": {"k": "v"}}},
+     {"aextras": {"0": {"k": "w", "n": 1}, "2": {"pos": {"x": 1.5}}}},
+     {"aextras": {"0": {}}}],
+    # only associations / attackers change
+    [{"ops": A3 + [["add_assoc", 0]] + ATT},
+     {"ops": [["remove_assoc", 0], ["add_assoc", 1], ["add_assoc", 2], ["remove_ep", 0, 2, 0]]},
+     {"ops": [["remove_attacker", 0], ["add_ep", 1, 1, 0], ["add_attacker", 1, None]]}],
+    # same ids, other assets behind them
+    [{"ops": [["add_asset", 0, 0, True], ["add_asset", 2, 3, True]]},
+     {"ops": [["remove_asset", 0], ["add_asset", 1, 0, True]]},
+     {"ops": [["remove_asset", 2], ["remove_asset", 1], ["add_asset", 2, 0, True], ["add_asset", 0, 3, True]]}],
+    # saved again unchanged, then emptied
+    [{"ops": A3 + [["add_assoc", 1]]}, {}, {"ops": [["remove_asset", 0], ["remove_asset", 1], ["remove_asset", 2]]}],
+    # starts empty
+    [{}, {"ops": A3 + [["add_assoc", 0], ["add_assoc", 2]] + ATT, "defs_named": {"0": {"*": 0.0}, "2": {"*": 0.0}}},
+     {"ops": [["remove_asset", 2]], "defs_named": {"0": {"*": 0.25}}}],
+]
+
+
+def rand_ops(rnd, U, n):
+    ops = []
+    for _ in range(n):
+        k = rnd.random()
+        if k < 0.3: ops.append(["add_asset", rnd.randrange(3), rnd.choice((None, None, 0, -1, 4)), True])
+        elif k < 0.5: ops.append(["add_assoc", rnd.randrange(len(U["links"]))])
+        elif k < 0.6: ops.append(["remove_asset", rnd.randrange(3)])
+        elif k < 0.65: ops.append(["remove_from_assoc", rnd.randrange(3), rnd.randrange(len(U["links"]))])
+        elif k < 0.7: ops.append(["remove_assoc", rnd.randrange(len(U["links"]))])
+        elif k < 0.85: ops.append(["add_ep", rnd.randrange(2), rnd.randrange(3), rnd.randrange(2)])
+        elif k < 0.95: ops.append(["add_attacker", rnd.randrange(2), rnd.choice((None, None, 0, 2))])
+        else: ops.append(["remove_attacker", rnd.randrange(2)])
+    return ops
+
+
+def type_defenses(lang, c):
+    """names of the defenses candidate c's type defines or inherits (from the language specification)"""
+    return sorted(L.spec_defenses(L.lang_spec(lang), LANG_U[lang]["types"][c]))
+
+
+def rand_defs_named(rnd, lang, p=0.5):
+    out = {}
+    for c in range(3):
+        d = {n: rnd.choice(DEF_VALUES + [0.0, 0]) for n in type_defenses(lang, c) if rnd.random() < p}
+        if d: out[str(c)] = d
+    return out
+
+
 def cases(tier, seed):
     rnd = random.Random(seed)
     p = 0.5 if tier == "quick" else 1.0
@@ -99,17 +202,7 @@ def cases(tier, seed):
     for i in range(n):
         lang = ("L0", "L1")[i % 2]
         U = LANG_U[lang]
-        ops = []
-        for _ in range(rnd.randint(4, 12)):
-            k = rnd.random()
-            if k < 0.3: ops.append(["add_asset", rnd.randrange(3), rnd.choice((None, None, 0, -1, 4)), True])
-            elif k < 0.5: ops.append(["add_assoc", rnd.randrange(len(U["links"]))])
-            elif k < 0.6: ops.append(["remove_asset", rnd.randrange(3)])
-            elif k < 0.65: ops.append(["remove_from_assoc", rnd.randrange(3), rnd.randrange(len(U["links"]))])
-            elif k < 0.7: ops.append(["remove_assoc", rnd.randrange(len(U["links"]))])
-            elif k < 0.85: ops.append(["add_ep", rnd.randrange(2), rnd.randrange(3), rnd.randrange(2)])
-            elif k < 0.95: ops.append(["add_attacker", rnd.randrange(2), rnd.choice((None, None, 0, 2))])
-            else: ops.append(["remove_attacker", rnd.randrange(2)])
+        ops = rand_ops(rnd, U, rnd.randint(4, 12))
         di, ei = rnd.randrange(len(DEFS)), rnd.randrange(len(EXTRAS))
         yield {"kind": "api", "lang": lang, "ops": ops, "names": list(rnd.choice(NAMES)),
                "defs": {str(k): v for k, v in DEFS[di].items()},
@@ -139,6 +232,97 @@ def cases(tier, seed):
                                "associations": [[cls, {f1: [ids[i] for i in m1], f2: [ids[i] for i in m2]}],
                                                 [cls2, {g1: [ids[i] for i in n1], g2: [ids[i] for i in n2]}]],
                                "attackers": [[3 if 3 not in ids else 11, "att", [[ids[0], [U["steps"][0][0]]], [ids[2], [U["steps"][2][0]]]]]]}
+    # ---- (the blocks below were added after the ones above; the recipes above are unchanged) ----
+    thorough = tier == "thorough"
+    plain = {"names": list(NAMES[0]), "defs": {}, "aextras": {}, "lextras": {}}
+    # api, defenses by name: per candidate every assignment of {unset} + DEF_VALUES to each defense of its type
+    for lang in ("L0", "L1"):
+        grids = []
+        for c in range(3):
+            names = type_defenses(lang, c)
+            for vals in itertools.product([None] + DEF_VALUES, repeat=len(names)):
+                d = {n: v for n, v in zip(names, vals) if v is not None}
+                if d: grids.append({str(c): d})
+        for v in DEF_VALUES + [1e-07]:
+            g = {str(c): {n: v for n in type_defenses(lang, c)} for c in range(3)}
+            grids.append({c: d for c, d in g.items() if d})
+        for g in grids:
+            for hi in (1, 2):
+                for fmt in FMTS:
+                    yield dict(plain, kind="api", lang=lang, ops=HISTORIES[hi], defs_named=g, fmt=fmt)
+    for i in range(3000 if thorough else 300):
+        lang = ("L1", "L0")[i % 3 == 2]
+        ei = rnd.randrange(len(EXTRAS))
+        yield {"kind": "api", "lang": lang, "ops": rand_ops(rnd, LANG_U[lang], rnd.randint(4, 12)), "names": list(rnd.choice(NAMES)),
+               "defs": {}, "defs_named": rand_defs_named(rnd, lang),
+               "aextras": {str(k): v for k, v in EXTRAS[ei][0].items()},
+               "lextras": {str(k): v for k, v in EXTRAS[ei][1].items()}, "fmt": rnd.choice(FMTS)}
+
+    # hand-written files, defense entries: each defense of each type (and all at once) x HAND_DEF_VALUES
+    def hand_doc(lang, ids, order, fmt, defs, name="hand", shorthand=(), extras=None):
+        U = LANG_U[lang]
+        ents = []
+        for k in order:
+            t = U["types"][k]
+            if k in shorthand: ents.append([ids[k], t]); continue
+            e = {"name": "n%d" % k, "type": t}
+            if defs.get(k): e["defenses"] = dict(defs[k])
+            if extras and k in extras: e["extras"] = extras[k]
+            ents.append([ids[k], e])
+        cls, f1, m1, f2, m2 = U["links"][0]
+        return {"kind": "hand", "lang": lang, "fmt": fmt, "name": name, "assets": ents,
+                "associations": [[cls, {f1: [ids[i] for i in m1], f2: [ids[i] for i in m2]}]],
+                "attackers": [[11, "att", [[ids[0], [U["steps"][0][0]]]]]]}
+    orders = list(itertools.permutations(range(3))) if thorough else [(0, 1, 2), (2, 1, 0)]
+    for lang in ("L0", "L1"):
+        slots = [(k, n) for k in range(3) for n in type_defenses(lang, k)]
+        for v in HAND_DEF_VALUES:
+            settings = [{k: {n: v}} for (k, n) in slots]
+            allv = {}
+            for (k, n) in slots: allv.setdefault(k, {})[n] = v
+            settings.append(allv)
+            for defs in settings:
+                for order in orders:
+                    for fmt in FMTS:
+                        yield hand_doc(lang, (0, 3, 7), order, fmt, defs)
+    # hand-written file rewritten at the same path and loaded again in the same process
+    for lang in ("L0", "L1"):
+        d0 = {0: {LANG_U[lang]["defense"]: 0.25}}
+        d1 = {0: {LANG_U[lang]["defense"]: 0.0}}
+        pairs = [(((0, 1, 2), (0, 1, 2), {}, ()), ((0, 3, 7), (0, 1, 2), {}, ())),          # other ids
+                 (((0, 1, 2), (0, 1, 2), d0, ()), ((0, 1, 2), (0, 1, 2), d1, ())),          # only a defense value
+                 (((0, 1, 2), (0, 1, 2), d1, ()), ((0, 1, 2), (0, 1, 2), {}, ())),          # defense entry removed
+                 (((0, 1, 2), (2, 1, 0), {}, ()), ((0, 1, 2), (0, 1, 2), {}, (1,))),        # order + shorthand
+                 (((-1, 0, 5), (1, 0, 2), {}, ()), ((0, 3, 7), (1, 2, 0), d0, ())),
+                 (((0, 3, 7), (0, 1, 2), {}, (0, 1, 2)), ((0, 3, 7), (0, 1, 2), {}, ())),   # shorthand -> full
+                 (((0, 1, 2), (0, 1, 2), {}, ()), ((0, 1, 2), (0, 1, 2), {}, ())),          # identical content, other model name
+                 (((5, 6, 7), (0, 1, 2), d0, ()), ((0, 1, 2), (2, 0, 1), d0, ()))]
+        for (a, b) in pairs:
+            for fmt in FMTS:
+                first = hand_doc(lang, a[0], a[1], fmt, a[2], "hand", a[3])
+                first["then"] = hand_doc(lang, b[0], b[1], fmt, b[2], "hand2", b[3], extras={2: {"k": "v"}})
+                yield first
+
+    # sequences save -> load -> change -> save -> load on one file, named in several spellings
+    forms = list(PATH_FORMS)
+    for lang in ("L0", "L1"):
+        for si, stages in enumerate(SEQ_SCENARIOS):
+            for fmt in FMTS:
+                for sf in forms:
+                    for lf in forms:
+                        if sf == lf or thorough or rnd.random() < 0.5:
+                            yield {"kind": "seq", "lang": lang, "names": list(NAMES[(si + (fmt != "json")) % 2 * 2]), "fmt": fmt,
+                                   "save_form": sf, "load_form": lf, "stages": stages}
+    for i in range(3000 if thorough else 300):
+        lang = ("L1", "L0")[i % 3 == 2]
+        stages = []
+        for _ in range(rnd.randint(2, 4)):
+            st = {"ops": rand_ops(rnd, LANG_U[lang], rnd.randint(0, 6))}
+            if rnd.random() < 0.6: st["defs_named"] = rand_defs_named(rnd, lang, 0.4)
+            if rnd.random() < 0.3: st["aextras"] = {str(rnd.randrange(3)): rnd.choice([{}, {"k": "v"}, {"n": [1, 2]}])}
+            stages.append(st)
+        yield {"kind": "seq", "lang": lang, "names": list(rnd.choice(NAMES)), "fmt": rnd.choice(FMTS),
+               "save_form": rnd.choice(forms), "load_form": rnd.choice(forms), "stages": stages}
 
 
 # -----------------------------------------------------------------------------------------------------------------
@@ -214,6 +398,20 @@ def compare_views(r, v0, v1, ctx):
     return ok
 
 
+def steps_by_name(base, ops):
+    """recipes give the attack step of an entry point by index into the steps of the candidate's type"""
+    return [([o[0], o[1], o[2], base["steps"][o[2]][o[3] % len(base["steps"][o[2]])]] if o[0] in ("add_ep", "remove_ep") else o)
+            for o in ops]
+
+
+def set_named_defenses(S, lang, defs_named):
+    """{cand: {defense name | "*": value}} on the live candidate objects ("*" = every defense the type has)"""
+    for c, dd in defs_named.items():
+        for name, v in dd.items():
+            for n in (type_defenses(lang, int(c)) if name == "*" else [name]):
+                setattr(S.cands[int(c)], n, v)
+
+
 def run_api(recipe, r, tmp):
     from maltoolbox.model import Model
     base = LANG_U[recipe["lang"]]
@@ -225,10 +423,9 @@ def run_api(recipe, r, tmp):
     for c, v in recipe["defs"].items():
         ds = sorted(L.spec_defenses(spec, base["types"][int(c)]))
         if ds: setattr(S.cands[int(c)], ds[-1], v)          # the last defense the type has (inherited ones included)
+    set_named_defenses(S, base["lang"], recipe.get("defs_named", {}))
     for c, ex in recipe["aextras"].items(): S.cands[int(c)].extras = ex
-    ops = [([o[0], o[1], o[2], base["steps"][o[2]][o[3] % len(base["steps"][o[2]])]] if o[0] in ("add_ep", "remove_ep") else o)
-           for o in recipe["ops"]]
-    S.build(ops)
+    S.build(steps_by_name(base, recipe["ops"]))
     m = S.model
     for k, ex in recipe["lextras"].items():
         inmodel = [h for h in S.by_shape.get(int(k), []) if any(x is S.links[h] for x in m.associations)]
@@ -273,7 +470,7 @@ def run_api(recipe, r, tmp):
     return v0
 
 
-def run_hand(recipe, r, tmp):
+def run_hand(recipe, r, tmp, tag="", seen=None):
     import yaml
     from maltoolbox.model import Model
     base = LANG_U[recipe["lang"]]
@@ -310,31 +507,131 @@ def run_hand(recipe, r, tmp):
         m1 = Model.load_from_file(path, lcf)
         v1 = L.full_view(m1, base["lang"])
     except Exception as e:
-        r.check("C07.handwritten", False, FN_LOAD, "assets listed as %s (.%s): loading raised %s: %s" % (order, fmt, L.exc_name(e), str(e)[:100]),
-                "%s:raised" % shape0)
+        r.check("C07.handwritten", False, FN_LOAD, "%sassets listed as %s (.%s): loading raised %s: %s" % (tag, order, fmt, L.exc_name(e), str(e)[:100]),
+                "%s%s:raised" % (tag, shape0))
         return want
+    if seen is not None:
+        # the file was rewritten: what is loaded now must not be what the file said before
+        prev = seen.get("view")
+        seen["view"] = v1
+        if prev is not None and tag and prev == v1 and not same_described(want, prev):
+            r.check("C07.handwritten", False, FN_FILE["json" if js else "yaml"],
+                    "the file was rewritten with another description (.%s) and loaded again in the same process: the model "
+                    "of the first description came back (ids %s, name %r; described now: ids %s, name %r)"
+                    % (fmt, sorted(v1["assets"]), v1["name"], sorted(want["assets"]), want["name"]),
+                    "rewritten-file:%s:content-of-earlier-file" % ("json" if js else "yaml"))
+            return want
     sub = CaseResult()
-    ok = compare_views(sub, want, v1, "assets listed as %s, .%s" % (order, fmt))
+    ok = compare_views(sub, want, v1, "%sassets listed as %s, .%s" % (tag, order, fmt))
     names = [a["name"] for a in v1["assets"].values()]
     if ok and (len(set(names)) < len(names) or any(not n for n in names)):
         ok = False; sub.failures.append(("C07.assets", FN_LOAD, "shorthand assets got names %s" % names, "shorthand-names"))
     for (cl, fn, msg, sig) in sub.failures:
-        r.check("C07.handwritten", False, fn, msg, "%s:%s:%s" % (shape, cl.split(".")[1], sig))
+        r.check("C07.handwritten", False, fn, msg, "%s%s:%s:%s" % (tag, shape, cl.split(".")[1], sig))
     r.clauses.setdefault("C07.handwritten", True)
     return want
+
+
+def same_described(want, view):
+    """does a loaded view agree with a description (names of shorthand entries are free)"""
+    sub = CaseResult()
+    return compare_views(sub, want, view, "")
+
+
+FN_FILE = {"json": "maltoolbox.file_utils:load_dict_from_json_file", "yaml": "maltoolbox.file_utils:load_dict_from_yaml_file"}
+
+
+def run_seq(recipe, r, tmp):
+    """stages applied to ONE live model; after each stage: save to the file (spelling save_form), load it (spelling
+    load_form) and compare with the content the live model has now"""
+    from maltoolbox.model import Model
+    base = LANG_U[recipe["lang"]]
+    lang = base["lang"]
+    U = dict(base)
+    U["cands"] = [(base["types"][c], recipe["names"][c], {}) for c in range(3)]
+    U["attackers"] = [None, "att"]
+    S = L.Session(U, model_name=recipe["names"][2] or "m")
+    m = S.model
+    fmt = recipe["fmt"]
+    kind = "json" if fmt == "json" else "yaml"
+    T = os.path.realpath(tmp)
+    os.mkdir(os.path.join(T, "sub"))
+    os.symlink("sub", os.path.join(T, "link"))
+    def spelled(form):
+        cwd, pat = PATH_FORMS[form]
+        return os.path.normpath(os.path.join(T, cwd)), pat.replace("{T}", T) + "." + fmt
+    (scwd, spath), (lcwd, lpath) = spelled(recipe["save_form"]), spelled(recipe["load_form"])
+    how = "saved as %s, loaded as %s" % (PATH_FORMS[recipe["save_form"]][1] + "." + fmt, PATH_FORMS[recipe["load_form"]][1] + "." + fmt)
+    spell = "canonical-path" if recipe["save_form"] == recipe["load_form"] == "abs" else "noncanonical-path"
+    views = []
+    old_cwd = os.getcwd()
+    try:
+        for k, st in enumerate(recipe["stages"]):
+            S.build(steps_by_name(base, st.get("ops", [])))
+            set_named_defenses(S, lang, st.get("defs_named", {}))
+            for c, ex in st.get("aextras", {}).items(): S.cands[int(c)].extras = ex
+            v = L.full_view(m, lang)
+            views.append(v)
+            ctx = "stage %d of %d, .%s, %s" % (k + 1, len(recipe["stages"]), fmt, how)
+            try:
+                os.chdir(scwd)
+                m.save_to_file(spath)
+            except Exception as e:
+                r.check("C07.save-load", False, FN_SAVE, "save_to_file raised %s: %s (%s)" % (L.exc_name(e), str(e)[:100].replace(T, "<T>"), ctx),
+                        "seq:save:%s:%s:%s" % (kind, L.exc_name(e), spell))
+                break
+            try:
+                os.chdir(lcwd)
+                m1 = Model.load_from_file(lpath, S.lcf)
+            except Exception as e:
+                r.check("C07.save-load", False, FN_LOAD, "load_from_file raised %s: %s (%s)" % (L.exc_name(e), str(e)[:100].replace(T, "<T>"), ctx),
+                        "seq:load:%s:%s:%s" % (kind, L.exc_name(e), spell))
+                break
+            r.check("C07.save-load", True, FN_SAVE)
+            try:
+                w = L.full_view(m1, lang)
+            except Exception as e:
+                r.check("C07.associations", False, FN_LOAD, "loaded model cannot be read: %s %s (%s)" % (L.exc_name(e), str(e)[:100], ctx),
+                        "loaded-unreadable:" + L.exc_name(e))
+                break
+            sub = CaseResult()
+            if not compare_views(sub, v, w, ctx):
+                earlier = [j for j in range(k) if views[j] == w and views[j] != v]
+                for (cl, fn, msg, sig) in sub.failures:
+                    if earlier:      # what came back is the content of an earlier save to this file
+                        r.check(cl, False, FN_FILE[kind], "the load returned the content saved at stage %d: %s" % (earlier[-1] + 1, msg),
+                                "seq:%s:content-of-earlier-save:%s" % (kind, spell))
+                    else:            # same pattern as in a single save + load
+                        r.check(cl, False, fn, msg, sig)
+    finally:
+        os.chdir(old_cwd)
+    return views
 
 
 def run_case(recipe):
     r = CaseResult()
     tmp = tempfile.mkdtemp(prefix="c07_")
     try:
-        v = run_api(recipe, r, tmp) if recipe["kind"] == "api" else run_hand(recipe, r, tmp)
+        if recipe["kind"] == "seq":
+            views = run_seq(recipe, r, tmp)
+            v = None
+        elif recipe["kind"] == "api":
+            v = run_api(recipe, r, tmp)
+        elif "then" in recipe:
+            seen = {}
+            v = run_hand(recipe, r, tmp, seen=seen)
+            run_hand(recipe["then"], r, tmp, tag="rewritten:", seen=seen)
+        else:
+            v = run_hand(recipe, r, tmp)
     finally:
         shutil.rmtree(tmp, ignore_errors=True)
     for cl in ("save-load", "name", "assets", "associations", "attackers", "resave", "handwritten"):
         r.clauses.setdefault("C07." + cl, True)
-    if v["assets"]:
-        r.nontrivial_key = recipe["kind"] + ":" + recipe["fmt"] + ":" + common.recipe_hash([v, recipe.get("assets")])
+    if v is None:
+        if any(x["assets"] for x in views) and any(a != b for a, b in zip(views, views[1:])):
+            r.nontrivial_key = "seq:%s:%s>%s:%s" % (recipe["fmt"], recipe["save_form"], recipe["load_form"], common.recipe_hash(views))
+    elif v["assets"]:
+        r.nontrivial_key = recipe["kind"] + ":" + recipe["fmt"] + ":" + common.recipe_hash([v, recipe.get("assets"), recipe.get("then")])
     return r
 
 
